@@ -18,8 +18,9 @@ Shared by C16 (overload resolution) and C03 (elaboration inserts only conversion
   booleans (`row_major`, `column_major`, `unorm`, `snorm`) into `rest`, which is only compared.
 * `find` returns `Except String (Option Conversion)`: `.error site` is a Rust panic (`unreachable!()` of the
   rank table), `.ok none` is `Err(())`, `.ok (some c)` is `Ok(c)`.
-* `getRank` returns `Except String Rank`: `.error` is the `panic!("invalid vector cast ..")` arm, which
-  **is** reachable on the pinned tree (scalar → matrix), see `getRank_scalar_to_matrix_panics`.
+* `getRank` returns `Except String Rank`: `.error` is the `panic!("invalid vector cast ..")` arm.  Up to /repo
+  368a51b it was reachable (scalar → matrix); since that fix every dimension cast `find` can build has an arm
+  (`Thm.C16.findRank_total`), which is re-proved against the regenerated `vecRankOf` on every run.
 
 The tables (`primaryRank`, `vecRankOf`, `NumRank.order`, `compareTable`, `VecRank.worstToBest`,
 `InputModifier.needsLvalue`) are not written here: they are re-extracted from the Rust source into
